@@ -240,6 +240,7 @@ class World:
         self.resume = False
         self.at_loop = False
         self.maxdepth = 0
+        self.maxrec = (0, None)  # deepest self-recursion of a function of the code under test
         self.tags = {}
         self.idtab = {}
         self.next_lid = 1
@@ -366,6 +367,13 @@ class Interp:
         W.frames.append(F)
         if len(W.frames) > W.maxdepth:
             W.maxdepth = len(W.frames)
+        if ci.code.co_filename.startswith(self.eng.interp_files):
+            k = 0
+            for G in W.frames:
+                if G.ci is ci:
+                    k += 1
+            if k > W.maxrec[0]:
+                W.maxrec = (k, ci.name)
         if len(W.frames) > self.eng.max_frames:
             raise PyRaise(RecursionError("pysym: frame depth limit"))
         return JUMPED
